@@ -40,6 +40,8 @@ def project_sched(log):
             return
         out.append(s)
 
+    mig_target = {}
+
     def next_push_pool(i, u):
         for j in range(i + 1, n):
             e = evs[j]
@@ -115,7 +117,9 @@ def project_sched(log):
                 bit = (~ev["a"]) & 0xffffffff
                 if bit in REQ:
                     if REQ[bit] == "migrate":
-                        p = next_push_pool(i, u)
+                        p = mig_target.pop(u, None)     # the pool the scenario asked for (`migReq` line) ...
+                        if p is None:
+                            p = next_push_pool(i, u)    # ... or where the unit is pushed next
                         if p is not None:
                             emit("migrate %d %d" % (u, p))
                     emit("reqClr %d %s" % (u, REQ[bit]))
@@ -145,7 +149,9 @@ def project_sched(log):
         elif t == "S":
             txt = ev["txt"]
             u = uid(ev["unit"])
-            if txt[0] == "userStart" and u is not None:
+            if txt[0] == "migReq" and u is not None and len(txt) >= 3 and pid(txt[2]) is not None:
+                mig_target[u] = pid(txt[2])
+            elif txt[0] == "userStart" and u is not None:
                 emit("userStart %d" % u)
             elif txt[0] == "userEnd" and u is not None:
                 emit("userEnd %d" % u)
@@ -253,3 +259,30 @@ def project_join(log):
         if done:
             res.append((tname, lines))
     return res
+
+
+# --------------------------------------------------------------------------------------------
+# projection onto Model.MemOwner: who touches which local memory pool (`memUse` notes of the monitor in vs_abt.c,
+# emitted at the hook events 80 / 81 of ABTI_mem_pool_alloc / ABTI_mem_pool_free)
+# --------------------------------------------------------------------------------------------
+def _es_num(name):
+    if name == "-":
+        return "-"
+    if name[0] == "X" and name[1:].isdigit():
+        return str(int(name[1:]))
+    if name[0] == "x" and name[1:].isdigit():
+        return str(1000 + int(name[1:]))     # a stream the scenario did not name
+    return "9999"
+
+
+def project_memowner(log):
+    out = []
+    for ev in log.events:
+        if ev["t"] == "S" and ev["txt"][0] == "memUse" and len(ev["txt"]) >= 5:
+            _, op, owner, cur, flag = ev["txt"][:5]
+            if owner == "ext":
+                out.append("useExt %s" % flag)
+            else:
+                o = _es_num(owner)
+                out.append("use %s %s %s" % (o, _es_num(cur), flag))
+    return out
